@@ -27,25 +27,51 @@ Pick(L, i) == L[((i + Shift) % Len(L)) + 1]
 MkFrame(L, n, eo, co) == [i \in 1..n |-> [el |-> ElAt(eo, i).el, ty |-> ElAt(eo, i).ty,
                                           x |-> Pick(L, co + 3 * (i - 1)), y |-> Pick(L, co + 3 * (i - 1) + 1),
                                           z |-> Pick(L, co + 3 * (i - 1) + 2)]]
-GeomsW(L, w, ns, eos, cos) == {[cls |-> c, frames |-> <<MkFrame(L, n, eo, co)>>, world |-> w] :
+(* the object's name = the comment line of its frames: ordinary, "", " ", padded with blanks, a tab, a number *)
+Names == <<"plain", "empty", "space", "padded", "tab", "count">>
+NameAt(i) == Names[(i % Len(Names)) + 1]
+GeomsW(L, w, ns, eos, cos) == {[cls |-> c, frames |-> <<MkFrame(L, n, eo, co)>>, world |-> w, name |-> NameAt(n + eo + co)] :
                            c \in GeomClasses, n \in ns, eo \in eos, co \in cos}
-EnssW(L, w, ks, ns, eos, cos) == {[cls |-> Ens, frames |-> [j \in 1..k |-> MkFrame(L, n, eo, co + 2 * j)], world |-> w] :
+EnssW(L, w, ks, ns, eos, cos) == {[cls |-> Ens, frames |-> [j \in 1..k |-> MkFrame(L, n, eo, co + 2 * j)], world |-> w,
+                                  name |-> NameAt(n + eo + co + k)] :
                            k \in ks, n \in ns, eo \in eos, co \in cos}
-Geoms(ns, eos, cos) == GeomsW(CoordsM, 1, ns, eos, cos)
-Enss(ks, ns, eos, cos) == EnssW(CoordsM, 1, ks, ns, eos, cos)
+Geoms(ns, eos, cos) == GeomsW(CoordsM, 0, ns, eos, cos)
+Enss(ks, ns, eos, cos) == EnssW(CoordsM, 0, ks, ns, eos, cos)
+(* scale -3 (integers are 1e-9 A, s the tenth decimal): digits beyond the sixth decimal of Angstrom, for the default     *)
+(* format (which must round them away correctly) and for the finer formats a caller may ask for                          *)
+CoordsN == << [u |-> 1000000499, s |-> 4], [u |-> -1000000499, s |-> -4], [u |-> 123456789, s |-> 3], [u |-> -2, s |-> 4],
+              [u |-> 1, s |-> 3], [u |-> 0, s |-> 0], [u |-> -987654321, s |-> -2], [u |-> 2000000001, s |-> 1],
+              [u |-> -1500000273, s |-> 2], [u |-> 777, s |-> -3], [u |-> -1, s |-> -4] >>
+FineQ == GeomsW(CoordsN, -3, {1, 3}, {0}, {0, 5}) \cup EnssW(CoordsN, -3, {2}, {2}, {0}, {0})
+FineT == GeomsW(CoordsN, -3, 1..3, {0, 2}, 0..10) \cup EnssW(CoordsN, -3, 1..2, 1..3, {0, 2}, {0, 3, 6, 9})
+FmtPoolQ == FineQ \cup Geoms({2}, {0}, {0})
+FmtPoolT == FineT \cup Geoms({2, 3}, {0, 2}, {0, 4, 7})
+FmtDecsQ == {8, 3}
+FmtDecsT == {3, 5, 8, 12}
+NoFmt == {}
 (* every class (the Conformer view through DumpConformer) with the wide values in every column; eo = 2, 3: Og, no-element   *)
 (* dummy (the longest symbol a writer may use), C, dummy-type H                                                           *)
-BigQ == GeomsW(CoordsK, 1000, {1, 3}, {2}, {0, 5}) \cup EnssW(CoordsK, 1000, {2}, {1, 3}, {2}, {0, 5, 9})
-BigT == GeomsW(CoordsK, 1000, 1..3, {2, 3}, 0..12) \cup EnssW(CoordsK, 1000, 1..3, 1..3, {2, 3}, 0..12)
+BigQ == GeomsW(CoordsK, 3, {1, 3}, {2}, {0, 5}) \cup EnssW(CoordsK, 3, {2}, {1, 3}, {2}, {0, 5, 9})
+BigT == GeomsW(CoordsK, 3, 1..3, {2, 3}, 0..12) \cup EnssW(CoordsK, 3, 1..3, 1..3, {2, 3}, 0..12)
 Files(L, ks, ns, eos, cos) == {[j \in 1..k |-> MkFrame(L, n, eo, co + 2 * j)] : k \in ks, n \in ns, eo \in eos, co \in cos}
 
 SmallQ == Geoms({0, 1}, {1}, {2}) \cup Enss({2}, {0, 2}, {0}, {5})
-PoolQ  == Geoms(0..3, {0, 2}, {0, 4, 7}) \cup Enss(1..3, 0..3, {1}, {1, 6}) \cup SmallQ \cup BigQ
-FPoolQ == Files(CoordsF, 1..2, 0..3, {0}, {0, 5}) \cup Files(CoordsG, {1, 3}, {2}, {3}, {1})
+PoolQ  == Geoms(0..3, {0, 2}, {0, 4, 7}) \cup Enss(1..3, 0..3, {1}, {1, 6}) \cup SmallQ \cup BigQ \cup FineQ
+FPoolQ == Files(CoordsF, 1..2, 0..3, {0}, {3}) \cup Files(CoordsG, {1, 3}, {2}, {3}, {1})
 
 SmallT == {g \in Geoms({0, 1, 2}, {1}, {2}) : g.cls # "Structure" \/ g.frames[1] = <<>>} \cup Enss({2}, {0, 2}, {0}, {5})
-PoolT  == Geoms(0..3, 0..3, 0..10) \cup Enss(1..3, 0..3, 0..3, 0..10) \cup SmallT \cup BigT
+PoolT  == Geoms(0..3, 0..3, 0..10) \cup Enss(1..3, 0..3, 0..3, 0..10) \cup SmallT \cup BigT \cup FineT
 FPoolT == Files(CoordsF, 1..3, 0..3, {0, 2}, {0, 3, 6, 9}) \cup Files(CoordsG, 1..3, 1..3, {1, 3}, {1, 4, 8})
+(* the object part of the graph falls into disjoint parts by length scale (emitted by parallel TLC runs) *)
+At0(S) == {g \in S : g.world = 0}
+PoolQ0 == At0(PoolQ)
+PoolQx == PoolQ \ PoolQ0
+PoolT0 == At0(PoolT)
+PoolTx == PoolT \ PoolT0
+FmtQ0 == At0(FmtPoolQ)
+FmtQx == FmtPoolQ \ FmtQ0
+FmtT0 == At0(FmtPoolT)
+FmtTx == FmtPoolT \ FmtT0
 NoGeoms == {}
 NoFiles == {}
 
@@ -63,7 +89,10 @@ DevFrames   == {"FrameBoundaryLost"}
 DevColumns  == {"ColumnsSwapped"}
 DevDummy    == {"DummyTypeHidesElement"}
 DevWide     == {"WideColumnsFuse"}
-PoolW  == EnssW(CoordsK, 1000, {2}, {1, 3}, {2}, {0, 5}) \cup SmallD
+PoolW  == EnssW(CoordsK, 3, {2}, {1, 3}, {2}, {0, 5}) \cup SmallD
+DevBlank    == {"BlankLinesDropped"}
+DevFmt      == {"FmtPrecisionCapped"}
+PoolF  == GeomsW(CoordsN, -3, {1}, {0}, {0}) \cup SmallD
 
 ASSUME PoolOK
 
